@@ -590,3 +590,24 @@ fn replay_one(
     }
     std::process::exit(if bad { 1 } else { 0 });
 }
+
+/// Keep at most `per_sig` violations per distinct signature (a frequent, possibly
+/// known, kind must never crowd out a rare one).
+pub fn limit(v: &mut Vec<Violation>, per_sig: usize) {
+    let mut seen: std::collections::HashMap<String, usize> = Default::default();
+    v.retain(|x| {
+        let k = serde_json::to_string(&x.sig).unwrap_or_default();
+        let n = seen.entry(k).or_insert(0);
+        *n += 1;
+        *n <= per_sig.max(1)
+    });
+}
+
+/// number of distinct violation signatures
+pub fn distinct_sigs(v: &[Violation]) -> usize {
+    let mut s = std::collections::HashSet::new();
+    for x in v {
+        s.insert(serde_json::to_string(&x.sig).unwrap_or_default());
+    }
+    s.len()
+}
